@@ -395,6 +395,8 @@ async def run_session(ccfg: Dict[str, List[str]], scfg: Dict[str, List[str]],
                     break
                 await asyncio.sleep(0.001)
         cconn = None
+        if task.done() and task.exception() is not None if not task.cancelled() else False:
+            await pair.settle(12)       # let the peer read the DISCONNECT the failing client wrote
         if task.done():
             try:
                 cconn = task.result()
@@ -554,8 +556,7 @@ def kexinit_edits(rng: random.Random) -> List[Tuple[str, Callable[[bytes], Any],
         ('hostkey-rotate', with_k(rotate('hostkey')), 'effective'),
         ('hostkey-drop-first', with_k(drop_first('hostkey')), 'effective'),
         ('hostkey-keep-last', with_k(lambda k: k.update(hostkey=k['hostkey'][-1:])), 'effective'),
-        ('empty-payload', lambda p: b'', 'effective'),
-    ] + [(l, f, 'effective') for l, f in generic_msgs()]
+    ]
     return eds
 
 
@@ -646,7 +647,9 @@ def kexmsg_edits(rng: random.Random, form: str, name: str, other_key: bytes, p_h
                                    b'rsa-sha2-256': b'ssh-rsa'}.get(name or b'', b'rsa-sha2-256')) + rest
                 eds.append(('sig-other-alg', with_f(setv(field, rename)), 'effective'))
                 eds.append(('sig-no-alg', with_f(setv(field, lambda v: v[:3])), 'effective'))
-    eds += [(l, f, 'effective') for l, f in generic_msgs()]
+    # (in place of a key-exchange message only: an endpoint that fails on its peer's KEXINIT at once does so while
+    # the peer is still inside its own KEXINIT task, and the in-memory link then closes before the DISCONNECT is read)
+    eds += [(l, f, 'effective') for l, f in generic_msgs()] + [('empty-payload', lambda p: b'', 'effective')]
     if form == 'gex' and name == 'request':
         eds.append(('to-old-request', lambda p: bytes([30]) + p[5:9], 'effective'))
     return eds
@@ -990,6 +993,12 @@ def gen_list_cfg(rng: random.Random) -> Tuple[Dict[str, List[str]], Dict[str, Li
     return c, s
 
 
+def with_host_keys(rng: random.Random, cfg: Dict[str, List[str]]) -> Tuple[Dict[str, List[str]], Dict[str, List[str]]]:
+    """(client cfg, server cfg) for a server with both host keys and a client with a preference among their algorithms"""
+    return (dict(cfg, hostkey=rng.sample(['ssh-ed25519'] + RSA_ALGS, rng.randint(2, 4))),
+            dict(cfg, hostkey=['ssh-ed25519'] + RSA_ALGS))
+
+
 def spec_negotiate(c: Dict[str, List[str]], s: Dict[str, List[str]]) -> Optional[List[str]]:
     """the property's own words: each name is the first on the client's list that the server supports; a cipher
     with built-in integrity stands in for the MAC.  None = no agreement possible."""
@@ -1089,7 +1098,8 @@ def correspondence(ctx: Ctx) -> CorrResult:
         cfg = default_cfg([alg])
         if rng.random() < 0.25:                 # a second method on both lists: the edit may try to steer the choice
             cfg = default_cfg([alg, rng.choice([a for a in ('ecdh-sha2-nistp256', 'curve25519-sha256') if a != alg])])
-        cases.append({'ccfg': cfg, 'scfg': dict(cfg), 'edit': edit_of(e),
+        ccfg, scfg = with_host_keys(rng, cfg) if rng.random() < 0.2 else (cfg, dict(cfg))
+        cases.append({'ccfg': ccfg, 'scfg': scfg, 'edit': edit_of(e),
                       'label': f'{e["target"] if isinstance(e["target"], str) else "kex"}:{e["label"]}',
                       'alg': alg, 'expect': e['expect'], 'dir': e['dir']})
     for alg in kex_schedule(ctx, rng, 0):       # every method once without any edit
@@ -1220,16 +1230,38 @@ def oracle_check(s: Dict[str, Any], case: Dict[str, Any], res: OracleResult, his
                                         f'{case["label"]} on {case.get("alg")}: an edit changing {where} went unnoticed, '
                                         f'the handshake completed', key))
         # first client preference the server supports
-        spec = spec_negotiate(case['ccfg'], case['scfg'])
+        spec = spec_negotiate(case['ccfg'], s.get('scfg', case['scfg']))
         got = [s['kex']['client'][0]] + (s['neg']['client'] or [])
         if not eff and spec is not None and got != spec:
             res.failures.append(Failure('not-first-client-preference',
                                         f'lists {case["ccfg"]} / {case["scfg"]}: negotiated {got}, expected {spec}', key))
+        # ... the server host key algorithm included: seen on the wire as the type of the host key blob and the
+        # algorithm named in the signature (all keys here are plain keys: the two names coincide)
+        want_hk = _first(case['ccfg']['hostkey'], s.get('scfg', case['scfg'])['hostkey'])
+        blob, sig = wire_host_key(s)
+        if not eff and want_hk is not None and sig is not None and blob is not None:
+            named = (split_sig(sig)[0] or b'').decode('latin1')
+            if named != want_hk or want_hk not in key_algs_of_blob(blob):
+                res.failures.append(Failure(
+                    'host-key-algorithm-not-first-client-preference',
+                    f'client list {case["ccfg"]["hostkey"]}, server list {s.get("scfg", case["scfg"])["hostkey"]}: '
+                    f'first client preference is {want_hk}, the handshake completed with a host key usable for '
+                    f'{key_algs_of_blob(blob)} and a signature made with {named}', key))
     else:
         if not eff and not s['editor'].applied and spec_negotiate(case['ccfg'], case['scfg']) is not None:
             res.failures.append(Failure(f'handshake-fails-without-edit:{s["client"]}',
                                         f'{case["label"]} on {case.get("alg")}: client {s["client"]} '
                                         f'{s.get("client_msg", "")}, server {s["server"]}', key))
+    # a handshake that fails must fail with an SSH error, not with whatever exception a library raised
+    for role in ('client', 'server'):
+        if s[role] not in HARNESS_OUTCOMES and s[role] not in SSH_ERROR_CLASSES:
+            lab = case['label'].split(':')
+            where = f'{form_of(case["alg"])}-{lab[1]}' if lab[0] == 'kex' and case.get('alg') and len(lab) > 1 else lab[0]
+            res.failures.append(Failure(
+                f'raw-exception:{role}:{s[role]}:{where}',
+                f'{case["label"]} on {case.get("alg")}: the {role} ended with {s[role]}'
+                f'{" (" + s.get("client_msg", "") + ")" if role == "client" else ""}, which is not an SSH error class: '
+                f'one cleartext message from the peer surfaces as a raw exception', key))
     if case.get('expect') == 'range' and s['editor'].applied:
         role = 'server' if case['dir'] == C2S else 'client'
         if s[role] != 'ProtocolError':
@@ -1241,6 +1273,23 @@ def oracle_check(s: Dict[str, Any], case: Dict[str, Any], res: OracleResult, his
             res.failures.append(Failure('dh-range-not-enforced:server-replied',
                                         f'{case["label"]} on {case.get("alg")}: server signed a reply for e out of range',
                                         key))
+
+
+def wire_host_key(s: Dict[str, Any]) -> Tuple[Optional[bytes], Optional[bytes]]:
+    """(host key blob, signature blob) the server put on the wire in this session"""
+    ed: HsEditor = s['editor']
+    alg = s['kex']['server'][0]
+    if not alg:
+        return None, None
+    blob = sig = None
+    for p in ed.sent[S2C][1:]:
+        if p and 30 <= p[0] <= 49:
+            try:
+                _nm, f = W.parse_kexmsg(form_of(alg), p)
+            except W.Bad:
+                continue
+            blob, sig = f.get('hostkey', blob), f.get('sig', sig)
+    return blob, sig
 
 
 def boundary_probe(res: OracleResult, hist: Hist, rng: random.Random, n: int) -> None:
@@ -1372,11 +1421,246 @@ def oracle_listener_sequence(ctx: Ctx, res: OracleResult, hist: Hist) -> None:
     res.nontrivial += len(set(tuple(a) for a in lists))
 
 
+def _server_wire(tap: Any, sconn: Any, algs: List[str], kex: str
+                 ) -> Tuple[Optional[str], Optional[str], Optional[bytes]]:
+    """(host key algorithm negotiated, algorithm named in the signature, host key blob) of a server connection, read
+    from what it sent: the host key list of its KEXINIT and the K_S and signature fields of its `kex` messages"""
+    negotiated = sigalg = blob = None
+    for _q, p in tap.sent.get(id(sconn), []):
+        p = bytes(p)
+        try:
+            if p[:1] == bytes([W.MSG_KEXINIT]) and negotiated is None:
+                offered = [x.decode('latin1') for x in W.parse_kexinit(p)['hostkey']]
+                negotiated = next((a for a in algs if a in offered), None)
+            elif p and 30 <= p[0] <= 49:
+                _nm, f = W.parse_kexmsg(form_of(kex), p)
+                blob = f.get('hostkey', blob)
+                if 'sig' in f and sigalg is None:
+                    sigalg = (split_sig(f['sig'])[0] or b'').decode('latin1')
+        except Exception:
+            pass
+    return negotiated, sigalg, blob
+
+
+class HoldAfterKexinit:
+    """hub.filter: everything the client writes after its version line and its KEXINIT is held back until released"""
+
+    def __init__(self) -> None:
+        self.n = 0
+        self.held: List[bytes] = []
+        self.released = False
+
+    def __call__(self, direction: str, data: bytes) -> bytes:
+        if direction != C2S or self.released:
+            return data
+        self.n += 1
+        if self.n <= 2:
+            return data
+        self.held.append(data)
+        return b''
+
+
+INTERLEAVE_CORPUS = [(['rsa-sha2-512'], ['ssh-rsa'], 'curve25519-sha256'),
+                     (['rsa-sha2-256', 'rsa-sha2-512'], ['rsa-sha2-512'], 'curve25519-sha256'),
+                     (['ssh-rsa'], ['rsa-sha2-256'], 'ecdh-sha2-nistp256'),
+                     (['rsa-sha2-512', 'ssh-rsa'], ['ssh-rsa', 'rsa-sha2-512'], 'diffie-hellman-group14-sha256'),
+                     (['rsa-sha2-512'], ['rsa-sha2-256'], 'diffie-hellman-group-exchange-sha256'),
+                     (['rsa-sha2-256'], ['ssh-rsa'], 'mlkem768x25519-sha256')]
+
+
+async def interleaved_run(a_algs: List[str], b_algs: List[str], kex: str) -> Dict[str, Any]:
+    """Two real connections to ONE listener (one options object).  Victim A's version line and KEXINIT are
+    delivered, the rest of what A writes is held back; stranger B then connects and completes; then A continues."""
+    rsa = rsa_host_key()
+    sopts = await pair.make_server_options(server_host_keys=[rsa], kex_algs=[kex])
+    loop = asyncio.get_event_loop()
+    out: Dict[str, Any] = {'a': a_algs, 'b': b_algs, 'kex': kex}
+    with capture.PacketTap() as tap:
+        hub_a = pair.Hub(loop)
+        hold = HoldAfterKexinit()
+        hub_a.filter = hold
+        coro, sa, hub_a = await pair.make_pair(server_opts=dict(shared_options=sopts), hub=hub_a, connect=False,
+                                               client_opts=dict(server_host_key_algs=a_algs, kex_algs=[kex],
+                                                                known_hosts=([rsa.convert_to_public()], [], [])))
+        task = asyncio.ensure_future(coro)
+        for _ in range(400):                       # until A has written its first key-exchange message
+            await asyncio.sleep(0)
+            if hold.held or task.done():
+                break
+        await pair.settle(20)                      # the server has processed A's KEXINIT
+        out['held'] = len(hold.held)
+        try:
+            cb, _sb, _hb = await asyncio.wait_for(pair.make_pair(
+                server_opts=dict(shared_options=sopts),
+                client_opts=dict(server_host_key_algs=b_algs, kex_algs=[kex])), 20)
+            out['b_outcome'] = 'ok'
+        except Exception as e:
+            cb = None
+            out['b_outcome'] = type(e).__name__
+        hold.released = True
+        hub_a.inject(C2S, b''.join(hold.held))
+        try:
+            ca = await asyncio.wait_for(task, 20)
+            out['a_outcome'] = 'ok'
+        except Exception as e:
+            ca = None
+            out['a_outcome'] = type(e).__name__
+        out['negotiated'], out['sigalg'], _blob = _server_wire(tap, sa, a_algs, kex)
+        for c in (ca, cb):
+            if c is not None:
+                c.abort()
+        await pair.settle(8)
+    return out
+
+
+def judge_interleaved(o: Dict[str, Any]) -> List[Failure]:
+    if o.get('negotiated') is None or o.get('sigalg') is None:
+        return []
+    if o['sigalg'] != o['negotiated']:
+        return [Failure(
+            'host-key-signature-algorithm-differs-from-negotiated:concurrent-connection',
+            f'victim offered {o["a"]} and negotiated host key algorithm {o["negotiated"]} ({o["kex"]}); a second '
+            f'connection to the same listener offering {o["b"]} sent its KEXINIT before the victim\'s next message '
+            f'arrived; the victim\'s exchange hash was signed with {o["sigalg"]}; victim\'s handshake: '
+            f'{o["a_outcome"]}', {'kind': 'listener-interleaved', 'a': o['a'], 'b': o['b'], 'kex': o['kex']})]
+    return []
+
+
+def oracle_listener_interleaved(ctx: Ctx, res: OracleResult, hist: Hist) -> None:
+    """Concurrent connections of one listener: the algorithm named in a connection's host key signature must be the
+    host key algorithm that connection negotiated, whatever another connection negotiates between the KEXINIT and
+    the signature."""
+    rng = ctx.subrng('oracle-interleaved')
+    avail = set(kex_algs())
+    todo = [c for c in INTERLEAVE_CORPUS if c[2] in avail]
+    for _ in range(ctx.n(4, 30)):
+        todo.append((rng.sample(RSA_ALGS, rng.randint(1, 3)), rng.sample(RSA_ALGS, rng.randint(1, 3)),
+                     rng.choice([k for k in ('curve25519-sha256', 'ecdh-sha2-nistp256') if k in avail])))
+    for a, b, kex in todo:
+        try:
+            o = pair.run(interleaved_run(a, b, kex), timeout=90, sync_executor=True)
+        except Exception as e:
+            res.notes.append(f'interleaved {a} {b} {kex}: {type(e).__name__}: {e}')
+            hist.hit('listener-interleaved:setup-failed')
+            continue
+        res.evaluations += 1
+        hist.hit(f'listener-interleaved:A={o["a_outcome"]}:B={o["b_outcome"]}:held={min(o["held"], 1)}')
+        res.failures += judge_interleaved(o)
+        if o['a_outcome'] != 'ok' and o.get('sigalg') == o.get('negotiated'):
+            res.failures.append(Failure(f'handshake-fails-without-edit:interleaved:{o["a_outcome"]}',
+                                        f'victim {a}, second connection {b}, {kex}: nothing was edited and the '
+                                        f'victim\'s handshake ended with {o["a_outcome"]}',
+                                        {'kind': 'listener-interleaved', 'a': a, 'b': b, 'kex': kex}))
+    res.nontrivial += len(set((tuple(a), tuple(b), k) for a, b, k in todo))
+
+
+LYING_CORPUS = [
+    # (client's host key algorithms, key the server answers with, signature algorithm it uses, kex)
+    (['ssh-ed25519'], 'rsa', 'rsa-sha2-512', 'curve25519-sha256'),
+    (['ssh-ed25519'], 'rsa', 'ssh-rsa', 'diffie-hellman-group14-sha256'),
+    (['ssh-ed25519'], 'rsa', 'rsa-sha2-256', 'rsa1024-sha1'),
+    (['rsa-sha2-512', 'rsa-sha2-256'], 'ed25519', 'ssh-ed25519', 'curve25519-sha256'),
+    (['rsa-sha2-512'], 'rsa', 'ssh-rsa', 'curve25519-sha256'),
+    (['rsa-sha2-512', 'rsa-sha2-256'], 'rsa', 'rsa-sha2-256', 'ecdh-sha2-nistp256'),
+    (['rsa-sha2-256'], 'rsa', 'ssh-rsa', 'diffie-hellman-group-exchange-sha256'),
+    (['rsa-sha2-512'], 'rsa', 'ssh-rsa', 'rsa1024-sha1'),
+    (['rsa-sha2-256', 'ssh-ed25519'], 'ed25519', 'ssh-ed25519', 'mlkem768x25519-sha256'),
+    # the honest answers (must complete)
+    (['ssh-ed25519'], 'ed25519', 'ssh-ed25519', 'curve25519-sha256'),
+    (['rsa-sha2-512'], 'rsa', 'rsa-sha2-512', 'curve25519-sha256'),
+    (['ssh-rsa', 'rsa-sha2-256'], 'rsa', 'ssh-rsa', 'rsa1024-sha1'),
+]
+
+
+async def lying_run(c_algs: List[str], key: str, sig_alg: str, kex: str) -> Dict[str, Any]:
+    """An unmodified client against a server that holds an Ed25519 and an RSA host key, both trusted by the client,
+    and answers with the key and signature algorithm of ITS choice instead of the negotiated ones."""
+    import copy
+    ka, _kb = host_keys()
+    rsa = rsa_host_key()
+    out: Dict[str, Any] = {'client': c_algs, 'key': key, 'sig': sig_alg, 'kex': kex}
+    with capture.PacketTap() as tap:
+        coro, sconn, _hub = await pair.make_pair(
+            server_opts=dict(server_host_keys=[ka, rsa], kex_algs=[kex]), connect=False,
+            client_opts=dict(server_host_key_algs=c_algs, kex_algs=[kex],
+                             known_hosts=([ka.convert_to_public(), rsa.convert_to_public()], [], [])))
+        table = sconn._server_host_keys            # the adversary's side: not the code under test
+
+        def choose(_peer_algs: Any) -> bool:
+            kp = copy.copy(table[b'ssh-ed25519' if key == 'ed25519' else b'ssh-rsa'])
+            kp.set_sig_algorithm(sig_alg.encode())
+            sconn._server_host_key = kp
+            return True
+        sconn.choose_server_host_key = choose
+        try:
+            c = await asyncio.wait_for(coro, 20)
+            out['outcome'] = 'ok'
+            c.abort()
+        except Exception as e:
+            out['outcome'] = type(e).__name__
+            out['msg'] = str(e)[:100]
+        all_algs = ['ssh-ed25519'] + [a.decode() for a in rsa.sig_algorithms]
+        out['negotiated'], out['sigalg'], blob = _server_wire(tap, sconn, c_algs, kex)
+        out['key_algs'] = key_algs_of_blob(blob) if blob else []
+        out['offered'] = all_algs
+        await pair.settle(8)
+    return out
+
+
+def judge_lying(o: Dict[str, Any]) -> List[Failure]:
+    neg, sig = o.get('negotiated'), o.get('sigalg')
+    rp = {'kind': 'lying-server', 'client': o['client'], 'key': o['key'], 'sig': o['sig'], 'kex': o['kex']}
+    honest = neg is not None and neg == sig and neg in o['key_algs']
+    if honest:
+        if o['outcome'] != 'ok':
+            return [Failure(f'handshake-fails-without-edit:honest-host-key:{o["outcome"]}',
+                            f'client list {o["client"]}, {o["kex"]}: the server answered with the negotiated host key '
+                            f'algorithm {neg} and the handshake ended with {o["outcome"]} {o.get("msg", "")}', rp)]
+        return []
+    if o['outcome'] != 'ok' or neg is None or sig is None:
+        return []
+    if neg not in o['key_algs']:
+        return [Failure('client-accepts-host-key-of-other-type-than-negotiated',
+                        f'client offered {o["client"]} (negotiated {neg}, {o["kex"]}); the server answered with a host '
+                        f'key usable for {o["key_algs"][:3]}.. and a {sig} signature; the client trusts that key for '
+                        f'this host and completed the handshake', rp)]
+    return [Failure('client-accepts-signature-algorithm-not-negotiated',
+                    f'client offered {o["client"]} (negotiated {neg}, {o["kex"]}); the server signed the exchange hash '
+                    f'with {sig}; the client completed the handshake', rp)]
+
+
+def oracle_lying_server(ctx: Ctx, res: OracleResult, hist: Hist) -> None:
+    rng = ctx.subrng('oracle-lying')
+    avail = set(kex_algs())
+    todo = [c for c in LYING_CORPUS if c[3] in avail]
+    for _ in range(ctx.n(6, 40)):
+        key = rng.choice(['rsa', 'rsa', 'ed25519'])
+        todo.append((rng.sample(['ssh-ed25519'] + RSA_ALGS, rng.randint(1, 3)), key,
+                     rng.choice(RSA_ALGS) if key == 'rsa' else 'ssh-ed25519',
+                     rng.choice([k for k in ('curve25519-sha256', 'ecdh-sha2-nistp256', 'rsa1024-sha1') if k in avail])))
+    for c_algs, key, sig_alg, kex in todo:
+        try:
+            o = pair.run(lying_run(c_algs, key, sig_alg, kex), timeout=90, sync_executor=True)
+        except Exception as e:
+            res.notes.append(f'lying server {c_algs} {key} {sig_alg} {kex}: {type(e).__name__}: {e}')
+            hist.hit('lying-server:setup-failed')
+            continue
+        res.evaluations += 1
+        honest = o.get('negotiated') is not None and o['negotiated'] == o.get('sigalg') and \
+            o['negotiated'] in o['key_algs']
+        hist.hit(f'lying-server:{"honest" if honest else "lying"}:{o["outcome"]}')
+        res.failures += judge_lying(o)
+    res.nontrivial += len(set((tuple(c), k, s_, x) for c, k, s_, x in todo))
+
+
 def oracle(ctx: Ctx) -> OracleResult:
     res = OracleResult()
     hist = Hist()
     rng = ctx.subrng('oracle')
     _ka, kb = host_keys()
+    # the deterministic scenarios first (their failures lead the report)
+    oracle_listener_interleaved(ctx, res, hist)
+    oracle_lying_server(ctx, res, hist)
     cases: List[Dict[str, Any]] = []
     # suspects from the correspondence first: re-run the same kind of edit on the same method
     for sus in ctx.suspects[:40]:
@@ -1406,9 +1690,29 @@ def oracle(ctx: Ctx) -> OracleResult:
             for label, fn, exp in kexmsg_edits(crng, form, name, kb.public_data,
                                                group_p(alg) if form in ('dh', 'gex') else 23):
                 if exp in ('range',) or label.endswith(('+1', '+2', '-flip', 'hostkey-other', 'p=group1', 'to-old-request',
-                                                        '-noncanonical', '-change')):
+                                                        '-noncanonical', '-change', 'hostkey-other-type', 'trans-ed25519',
+                                                        'trans-small-rsa', 'p=0', 'g=1', 'f=1', 'f=p-1', 'e=1', 'e=p-1',
+                                                        'sig-other-alg', 'sig-no-alg', 'empty-payload')):
                     cases.append({'alg': alg, 'dir': d, 'target': ('kex', i), 'label': f'kex:{name}:{label}',
                                   'fn': fn, 'expect': exp})
+    if 'rsa2048-sha256' in avail:           # a 1024-bit transient key cannot carry this method's secret
+        crng = random.Random(f'{ctx.seed}:rsa2048')
+        for label, fn, exp in kexmsg_edits(crng, 'rsa', 'pubkey', kb.public_data, 23):
+            if label in ('trans-small-rsa', 'trans-ed25519'):
+                cases.append({'alg': 'rsa2048-sha256', 'dir': S2C, 'target': ('kex', 0), 'label': f'kex:pubkey:{label}',
+                              'fn': fn, 'expect': exp})
+    for d in (C2S, S2C):                    # the host key algorithm lists of a client with a preference
+        crng = random.Random(f'{ctx.seed}:hostkey')
+        for label, fn, exp in kexinit_edits(crng):
+            if label.startswith('hostkey-'):
+                ccfg, scfg = with_host_keys(crng, default_cfg(['curve25519-sha256']))
+                cases.append({'alg': 'curve25519-sha256', 'dir': d, 'target': 'kexinit', 'label': f'kexinit:{label}',
+                              'fn': fn, 'expect': exp, 'ccfg': ccfg, 'scfg': scfg, 'edit': (d, 'kexinit', fn)})
+    for d in (C2S, S2C):                    # a version line with a byte that is not ASCII
+        for label, fn, exp in version_edits(random.Random(ctx.seed), d):
+            if label == 'high-byte':
+                cases.append({'alg': 'curve25519-sha256', 'dir': d, 'target': 'version', 'label': f'version:{label}',
+                              'fn': fn, 'expect': exp})
     for c in cases:
         if 'ccfg' not in c:
             cfg = default_cfg([c['alg'], 'ecdh-sha2-nistp384'] if c['label'].startswith('kexinit:kex-') else [c['alg']])
@@ -1417,7 +1721,8 @@ def oracle(ctx: Ctx) -> OracleResult:
     for alg in kex_schedule(ctx, rng, ctx.n(350, 2500)):
         e = gen_edit_case(rng, alg, kb.public_data)
         cfg = default_cfg([alg])
-        cases.append({'ccfg': cfg, 'scfg': dict(cfg), 'edit': edit_of(e),
+        ccfg, scfg = with_host_keys(rng, cfg) if rng.random() < 0.2 else (cfg, dict(cfg))
+        cases.append({'ccfg': ccfg, 'scfg': scfg, 'edit': edit_of(e),
                       'label': f'{e["target"] if isinstance(e["target"], str) else "kex"}:{e["label"]}',
                       'alg': alg, 'expect': e['expect'], 'dir': e['dir']})
     # unedited handshakes over random preference lists
@@ -1459,7 +1764,7 @@ def oracle(ctx: Ctx) -> OracleResult:
     except AttributeError:
         res.notes.append('_choose_alg not callable directly')
     boundary_probe(res, hist, rng, ctx.n(60, 600))
-    res.nontrivial = len(distinct)
+    res.nontrivial += len(distinct)
     res.histogram = dict(hist)
     res.samples = [{'label': c['label'], 'alg': c.get('alg'), 'client': s.get('client'), 'server': s.get('server')}
                    for c, s in list(zip(cases, sessions))[:3]]
@@ -1467,11 +1772,36 @@ def oracle(ctx: Ctx) -> OracleResult:
                 'transient RSA key, request form) on one method per message form, seeded edits over all registered '
                 'methods, unedited handshakes over random preference lists; failure = completed although an endpoint '
                 'retained something different, or completed with different ids/keys/names, or a name that is not the '
-                'first client preference, or an out-of-range DH value not answered with ProtocolError, or two field '
-                'tuples with one hash input; distinct = distinct (method, edit) pairs')
+                'first client preference (host key algorithm included), or an out-of-range DH value not answered with '
+                'ProtocolError, or a failure with an exception that is not an SSH error class, or two field tuples '
+                'with one hash input; two real connections of one listener with the second one\'s KEXINIT scheduled '
+                'between the first one\'s KEXINIT and its key exchange message (failure = signature algorithm differs '
+                'from the one that connection negotiated); a real client against a real server that answers with '
+                'another host key type or signature algorithm than negotiated (failure = completed); '
+                'distinct = distinct (method, edit) pairs and scenarios')
     oracle_listener_sequence(ctx, res, hist)
     res.histogram = dict(hist)
+    res.failures = lead_with_distinct(res.failures)
     return res
+
+
+LEAD = ['host-key-signature-algorithm-differs-from-negotiated:concurrent-connection',
+        'client-accepts-host-key-of-other-type-than-negotiated', 'raw-exception:client:AttributeError',
+        'raw-exception:client:TypeError', 'raw-exception:client:ValueError:gex-group',
+        'client-accepts-signature-algorithm-not-negotiated', 'host-key-signature-algorithm-differs-from-negotiated']
+
+
+def lead_with_distinct(failures: List[Failure]) -> List[Failure]:
+    """the same failures, one of each signature first (the report shows the first few), nothing dropped"""
+    first: Dict[str, Failure] = {}
+    for f in failures:
+        first.setdefault(f.signature, f)
+
+    def rank(sig: str) -> int:
+        return next((i for i, pre in enumerate(LEAD) if sig.startswith(pre)), len(LEAD))
+    head = sorted(first.values(), key=lambda f: rank(f.signature))
+    ids = set(id(f) for f in head)
+    return head + [f for f in failures if id(f) not in ids]
 
 
 def replay(ctx: Ctx, rep: Dict[str, Any]) -> List[Failure]:
@@ -1488,6 +1818,14 @@ def replay(ctx: Ctx, rep: Dict[str, Any]) -> List[Failure]:
     if r.get('kind', '').startswith('boundary'):
         boundary_probe(res, hist, random.Random(0), 40)
         return res.failures
+    if r.get('kind') == 'listener-interleaved':
+        return judge_interleaved(pair.run(interleaved_run(r['a'], r['b'], r['kex']), timeout=90, sync_executor=True))
+    if r.get('kind') == 'lying-server':
+        return judge_lying(pair.run(lying_run(r['client'], r['key'], r['sig'], r['kex']), timeout=90,
+                                    sync_executor=True))
+    if r.get('kind') == 'listener-sequence':
+        oracle_listener_sequence(ctx, res, hist)
+        return res.failures
     # an edited handshake: regenerate the same family of edits for the method and label
     _ka, kb = host_keys()
     alg = r.get('alg') or 'curve25519-sha256'
@@ -1503,11 +1841,14 @@ def replay(ctx: Ctx, rep: Dict[str, Any]) -> List[Failure]:
     for d, i, name in KEXMSG_TARGETS[form]:
         for l, fn, exp in kexmsg_edits(rng, form, name, kb.public_data, group_p(alg) if form in ('dh', 'gex') else 23):
             cands.append({'dir': d, 'target': ('kex', i), 'label': f'kex:{name}:{l}', 'fn': fn, 'expect': exp})
+        for l, fn in generic_msgs():
+            cands.append({'dir': d, 'target': ('kex', i), 'label': f'kex:{name}:nonstrict-{l}', 'fn': fn,
+                          'expect': 'effective', 'pre': (d, 'kexinit', strip_strict)})
     todo = [c for c in cands if c['label'] == label and (r.get('dir') in (None, c['dir']))] or \
            ([{'dir': None, 'target': None, 'label': label, 'fn': None, 'expect': None}] if label in ('lists', 'plain') else [])
     for c in todo:
         case = {'ccfg': r.get('ccfg') or default_cfg([alg]), 'scfg': r.get('scfg') or default_cfg([alg]),
-                'edit': (c['dir'], c['target'], c['fn']) if c['fn'] else None, 'label': c['label'], 'alg': alg,
+                'edit': edit_of(c) if c['fn'] else None, 'label': c['label'], 'alg': alg,
                 'expect': c['expect'], 'dir': c['dir']}
         s = pair.run(_run_cases([case]))[0]
         if 'setup_error' not in s:
